@@ -1,6 +1,7 @@
 package main
 
 import (
+	"bytes"
 	"context"
 	"fmt"
 	stdslog "log/slog"
@@ -279,6 +280,12 @@ func c01table(c *Ctx) {
 		log := mon.NewLog()
 		w1 := mon.New(log, "normal", mon.ShapePlain)
 		w2 := mon.New(log, "error", mon.ShapeCloser)
+		// the error device reports an error for every record it stores (every other registry): whatever the library
+		// writes in reaction is output too, and output needs a level that admits its severity
+		failingErrDev := idx%2 == 0 && idx > 0
+		if failingErrDev {
+			w2.Core().Fail = func(_ int, p []byte) (bool, int) { return true, len(p) }
+		}
 		w3 := mon.New(log, "perlevel", mon.ShapePlain)
 		mkRoot := func() slog.Logger {
 			l := slog.New("gate")
@@ -383,6 +390,19 @@ func c01table(c *Ctx) {
 								want = false
 							}
 							c.R.NonTrivial(kd.name, e.name, int(L), int(r), st.name)
+							if failingErrDev && n > 0 {
+								for _, ev := range log.Events() {
+									if ev.Kind != mon.EvWrite || !bytes.Contains(ev.Data, []byte(diagText)) {
+										continue
+									}
+									c.R.Add("reaction_records_to_a_failing_destination_seen", 1)
+									if !admit(L, slog.WarnLevel, d, treat) {
+										c.R.Violation(idx, "gate", "C01/gate/"+e.name+"/reaction-record-not-admitted",
+											fmt.Sprintf("%s on %s: logger level %v(%d) does not admit Warn, yet a warning record was written in reaction to the failing destination: %s", e.name, kd.name, L, int(L), clip(fmtEvents(log.Events()), 600)),
+											map[string]any{"customs": cdesc, "entry": e.name, "logger": kd.name, "level": int(L), "severity": int(r), "history": st.name})
+									}
+								}
+							}
 							if (n > 0) != want {
 								kind := "emitted-but-not-admitted"
 								if want {
